@@ -383,6 +383,11 @@ class Position(object):
         if int(floor(transaction.quantity)) == 0:
             return
 
+        # Update the current trade information. This validates the
+        # price and timestamp before the position is modified.
+        self.update_current_price(transaction.price, transaction.dt)
+        self.current_dt = transaction.dt
+
         # Depending upon the direction of the transaction
         # ensure the correct calculation is called
         if transaction.quantity > 0:
@@ -397,7 +402,3 @@ class Position(object):
                 transaction.price,
                 transaction.commission
             )
-
-        # Update the current trade information
-        self.update_current_price(transaction.price, transaction.dt)
-        self.current_dt = transaction.dt
